@@ -260,5 +260,5 @@ Proof.
       cbn [wpd]. apply Htail.
       * eapply RInv_put_conn; eauto.
       * eapply dfr_put_conn; eauto.
-  - cbn [wpd]. apply Htail; [exact HI|apply dfr_refl].
+  - destruct (p_topic p); [apply dfr_refl|]. cbn [wpd]. apply Htail; [exact HI|apply dfr_refl].
 Qed.
